@@ -121,7 +121,7 @@ Definition spec_volx_env (s : scope) (ve : list (ident * list (option Q))) (j : 
                                   | Some q => match nth j (snd xv) None with Some q' => Qeq_bool q q' | None => false end
                                   | None => true
                                   end) ve
-    | Err _ => false       (* a change of constants cannot make a denoting scope non-denoting *)
+    | Err _ => true        (* a changed volatile constant can be a divisor that becomes 0: no statement there *)
     end
   else true.
 
